@@ -33,7 +33,7 @@ HeartbeatException(ev, r, older, newer) ==
 
 Install(s, r) == [s EXCEPT !.nodes = r.nodes, !.ver = r.ver, !.proto = r.proto,
                            !.setbuf = r.setbuf, !.asked = r.asked, !.held = r.held]
-St0(reg, p) == [nodes |-> reg, ver |-> p, proto |-> p, metric |-> TRUE, setbuf |-> EmptyFn, asked |-> {}, held |-> {}]
+St0(reg, p) == [nodes |-> reg, ver |-> p, proto |-> p, metric |-> TRUE, setbuf |-> EmptyFn, asked |-> {}, held |-> EmptyFn]
 
 Init == /\ pair \in Pairs
         /\ \E reg \in InitRegs : sa = St0(reg, pair[1]) /\ sb = St0(reg, pair[2])
